@@ -49,12 +49,16 @@ pub struct Run {
 
 thread_local! {
     static LAST_PANIC: RefCell<Option<String>> = const { RefCell::new(None) };
+    static CATCH_DEPTH: std::cell::Cell<u32> = const { std::cell::Cell::new(0) };
 }
 
 /// Runs `f`, converting a panic into `Err(message @ location)`.
 pub fn catch<T>(f: impl FnOnce() -> T) -> Result<T, String> {
     LAST_PANIC.with(|p| *p.borrow_mut() = None);
-    match catch_unwind(AssertUnwindSafe(f)) {
+    CATCH_DEPTH.with(|d| d.set(d.get() + 1));
+    let r = catch_unwind(AssertUnwindSafe(f));
+    CATCH_DEPTH.with(|d| d.set(d.get() - 1));
+    match r {
         Ok(v) => Ok(v),
         Err(p) => {
             let from_hook = LAST_PANIC.with(|p| p.borrow_mut().take());
@@ -70,6 +74,11 @@ pub fn catch<T>(f: impl FnOnce() -> T) -> Result<T, String> {
             Err(msg)
         }
     }
+}
+
+thread_local! {
+    /// set by checks around schedule exploration (library panics there are execution outcomes)
+    pub static IN_EXPLORER: std::cell::Cell<bool> = const { std::cell::Cell::new(false) };
 }
 
 fn install_panic_hook() {
@@ -89,6 +98,14 @@ fn install_panic_hook() {
                 cut -= 1;
             }
             m.truncate(cut);
+        }
+        // a panic outside `catch` (and outside the explorer's worker threads, whose panics are
+        // outcomes of the explored execution) is a bug of the harness itself: show it
+        let in_catch = CATCH_DEPTH.with(|d| d.get() > 0);
+        let worker = std::thread::current().name().map(|n| n.starts_with("vworker")).unwrap_or(false);
+        let scheduled = std::env::var("VERIF_SHOW_PANICS").is_ok();
+        if (!in_catch && !worker && !IN_EXPLORER.with(|e| e.get())) || scheduled {
+            eprintln!("HARNESS PANIC [{}]: {m}", std::thread::current().name().unwrap_or("?"));
         }
         LAST_PANIC.with(|p| *p.borrow_mut() = Some(m));
     }));
